@@ -52,7 +52,8 @@ def to_type(T):
 
 def apply_constraints(obj, T, skip=False):
     """subtype constraints of the universe types: 'range' (lo, hi) on integers, 'size' (lo, hi) on strings and
-    collections, 'present' [names] on records (WITH COMPONENTS { name PRESENT })"""
+    collections, 'present' / 'absent' [names] on records and choices (WITH COMPONENTS { name PRESENT / ABSENT }), 'within' {name: (lo, hi)}
+    (WITH COMPONENTS { name (lo..hi) })"""
     from pyasn1.type import constraint
     if T.get('unconstrained'):
         return obj
@@ -63,12 +64,20 @@ def apply_constraints(obj, T, skip=False):
     if 'present' in T:
         obj = obj.subtype(subtypeSpec=constraint.WithComponentsConstraint(
             *[(n, constraint.ComponentPresentConstraint()) for n in T['present']]))
+    if 'absent' in T:
+        # WITH COMPONENTS { name ABSENT }: on records, and on a CHOICE (the alternative may not be chosen)
+        obj = obj.subtype(subtypeSpec=constraint.WithComponentsConstraint(
+            *[(n, constraint.ComponentAbsentConstraint()) for n in T['absent']]))
+    if 'within' in T:
+        # WITH COMPONENTS { name (lo..hi) }: a value constraint on a member; it applies when the member is present
+        obj = obj.subtype(subtypeSpec=constraint.WithComponentsConstraint(
+            *[(n, constraint.ValueRangeConstraint(lo, hi)) for n, (lo, hi) in sorted(T['within'].items())]))
     return obj
 
 
 def strip_constraints(T):
     """the unconstrained twin of a universe type (same tags and structure)"""
-    t = {k: v for k, v in T.items() if k not in ('range', 'size', 'present', 'violating')}
+    t = {k: v for k, v in T.items() if k not in ('range', 'size', 'present', 'absent', 'within', 'violating')}
     if 'fields' in t:
         t['fields'] = [(n, strip_constraints(ft), m) for n, ft, m in t['fields']]
     if 'elem' in t:
